@@ -1,4 +1,10 @@
 // Unit C07 — the concrete executor implements the IL operational semantics exactly.
+// Generated file = this template + the real text of the functions named in the `//@` holes.
+//
+// Layout: the IL (il::*), the program locations and the paged memory are IMPORTED under contract
+// (`//@ mode contracts-only <unit>`: C04 expressions / eval, C11 graph, C15 il core, C18 locations,
+// C16 backing memory, C08 paged memory); what is PROVED here is lib/executor/{state,successor,driver,mod}.rs
+// (+ il::Program::add_function / il::Function::set_index, which the driver's lifting arm calls).
 #![feature(allocator_api)]
 #![allow(unused_imports, unused_variables, dead_code, unused_mut, non_snake_case, unused_parens, unused_braces, deprecated)]
 use vstd::prelude::*;
@@ -6,42 +12,217 @@ use vstd::arithmetic::power2::*;
 use vstd::arithmetic::div_mod::*;
 use vstd::arithmetic::mul::*;
 use std::ops::*;
+use std::cmp;
 use std::cmp::Ordering;
-use std::collections::BTreeMap;
+use std::collections::{BTreeMap, BTreeSet, VecDeque};
+use std::fmt;
+use std::rc::Rc;
 
 verus! {
 
 //@ include spec/bv.rs
 //@ include prelude/bigint.rs
 //@ include prelude/error.rs
+//@ include prelude/fxhash.rs
+//@ include prelude/stdcoll.rs
+//@ include prelude/rc_asref.rs
+//@ include prelude/location_hash.rs
+//@ include prelude/fmt_option.rs
+//@ include prelude/btree_range.rs
+//@ include prelude/rc_cow.rs
 //@ include prelude/strmap.rs
+
+// falcon::RC (default build, feature "thread_safe" off): the real alias, extracted
+//@ item lib/lib.rs :: type RC#0
+
+// falcon::Error conversions (`"..".into()`, `format!(..).into()`, `chain`), Debug for Error: imported from C08
+//@ mode contracts-only C08
+//@ include units/C08/error_glue.rs
+//@ mode full
+
+pub mod graph {
+use super::*;
+use vstd::std_specs::iter::IteratorSpec;
+use rustc_hash::{FxHashMap, FxHashSet};
+broadcast use {rustc_hash::axiom_fx_builds_valid_hashers, stdcoll::axiom_btreemap_index_req, stdcoll::axiom_hashmap_index_req, stdcoll::axiom_usize_pair_obeys_key_model};
+//@ mode contracts-only C11
+//@ include units/C11/graph_core.rs
+//@ mode full
+proof fn vf_canary_graph() ensures false {}
+} // mod graph
 
 pub mod il {
 use super::*;
-#[verifier::external_body] pub struct ProgramLocation { _p: () }
+use vstd::std_specs::iter::IteratorSpec;
+//@ mode contracts-only C15
+//@ include units/C15/il_core.rs
+//@ mode contracts-only C18
+//@ include units/C18/loc_core.rs
+//@ mode contracts-only C08
+//@ include units/C08/il_glue.rs
+//@ mode full
+// C04's substitution vocabulary (map_spec, ...) lives in a sub-module: units/C04/subst.rs hoists the crate's nested
+// `struct Map<F>` to module level, which would shadow vstd's `Map` used by the C15 / C18 specifications.
+pub mod subst {
+use super::*;
 //@ mode contracts-only C04
-//@ include units/C04/constant.rs
-//@ include units/C04/expression.rs
-//@ include units/C04/builders.rs
 //@ include units/C04/subst.rs
 //@ mode full
+}
+pub use self::subst::{ExprMap, map_spec, map_result, closure_is, lift_bin, lift_zext, lift_sext, lift_trun, lift_ite, mk_bin, repl_g, replace_spec, env_upd, lemma_subst_eval};
+//@ include units/C07/il_extra.rs
 proof fn vf_canary_il() ensures false {}
 } // mod il
+
+pub mod architecture {
+use super::*;
+//@ item lib/architecture.rs :: enum Endian
+
+// derive(Clone), derive(PartialEq) of Endian (a field-less enum): structural copy / equality
+impl Clone for Endian {
+    #[verifier::external_body]
+    fn clone(&self) -> (r: Endian) ensures r == *self { unimplemented!() }
+}
+impl vstd::std_specs::cmp::PartialEqSpecImpl for Endian {
+    open spec fn obeys_eq_spec() -> bool { true }
+    open spec fn eq_spec(&self, other: &Endian) -> bool { *self == *other }
+}
+impl PartialEq for Endian {
+    #[verifier::external_body]
+    fn eq(&self, other: &Endian) -> (r: bool) ensures r == (*self == *other) { unimplemented!() }
+}
+
+//@ include units/C07/architecture.rs
+} // mod architecture
+
+pub mod translator {
+use super::*;
+use crate::memory::MemoryPermissions;
+//@ include units/C07/translation_memory.rs
+} // mod translator
+
+pub mod memory {
+use super::*;
+
+// Stand-in for the type the `bitflags!` macro (bitflags 1.x, third party) generates in
+// lib/memory/mod.rs:   `pub struct MemoryPermissions { bits: u32 }`  deriving Copy, Clone, PartialEq, Eq, ...
+// (same stand-in as units C16 / C08; the executor only copies values of this type)
+#[derive(Clone, Copy)]
+pub struct MemoryPermissions { pub bits: u32 }
+
+// ---- memory::backing::Memory: contracts imported from unit C16 ----------------------------------
+pub mod backing {
+use vstd::prelude::*;
+use vstd::arithmetic::power2::*;
+use vstd::arithmetic::div_mod::*;
+use vstd::arithmetic::mul::*;
+use crate::*;
+use crate::il::{MAX_BITS, EvalR, Env, BinOp, eval_spec, empty_env, expr_bits, expr_sane, eval_agrees, is_const, is_sort_err, is_div0_err, ctor2, bin_spec, bin_val};
+use crate::architecture::Endian;
+use crate::executor;
+use crate::il;
+use crate::memory::MemoryPermissions;
+use crate::translator::TranslationMemory;
+use crate::Error;
+use std::collections::BTreeMap;
+use std::ops::Bound::Included;
+#[allow(unused_imports)]
+use std::ops::Bound::{Excluded, Unbounded};
+
+//@ mode contracts-only C16
+//@ include units/C16/bytes_spec.rs
+//@ include units/C16/backing.rs
+//@ mode contracts-only C08
+//@ include units/C08/backing_glue.rs
+//@ mode full
+
+proof fn vf_canary_backing() ensures false {}
+} // mod backing
+
+pub mod value {
+use vstd::prelude::*;
+use vstd::arithmetic::power2::*;
+use vstd::arithmetic::div_mod::*;
+use vstd::arithmetic::mul::*;
+use crate::*;
+use crate::il::{MAX_BITS, EvalR, Env, BinOp, eval_spec, empty_env, expr_bits, expr_sane, eval_agrees, is_const, is_sort_err, is_div0_err, ctor2, bin_spec, bin_val};
+use vstd::std_specs::cmp::PartialEqSpec;
+use vstd::std_specs::fmt::DebugSpec;
+use crate::executor::eval;
+use crate::il;
+use crate::Error;
+use std::fmt::Debug;
+
+//@ mode contracts-only C08
+//@ include units/C08/bytes.rs
+//@ include units/C08/value.rs
+//@ mode full
+
+proof fn vf_canary_value() ensures false {}
+} // mod value
+
+pub use self::value::Value;
+
+pub mod paged {
+use vstd::prelude::*;
+use crate::*;
+use crate::il::{MAX_BITS, is_sort_err};
+use crate::memory::value::*;
+use crate::memory::backing::{vw, SecMap};
+use vstd::std_specs::cmp::PartialEqSpec;
+use vstd::std_specs::fmt::DebugSpec;
+use crate::architecture::Endian;
+use crate::il;
+use crate::Error;
+use crate::RC;
+use std::collections::HashMap;
+
+use crate::memory::backing;
+use crate::memory::value::Value;
+use crate::memory::MemoryPermissions;
+
+//@ mode contracts-only C08
+//@ include units/C08/paged_spec.rs
+//@ include units/C08/paged.rs
+//@ include units/C08/paged_load.rs
+//@ include units/C08/paged_store.rs
+//@ mode full
+
+proof fn vf_canary_paged() ensures false {}
+} // mod paged
+} // mod memory
 
 pub mod executor {
 use super::*;
 use super::il::*;
 use super::strmap::*;
 use vstd::map::Map;
+use crate::il;
+use crate::memory;
+use crate::memory::value::*;
+use crate::memory::paged::*;
+use crate::memory::backing::{vw, SecMap, le_value};
+use crate::memory::MemoryPermissions;
+use crate::architecture::{Endian, Architecture};
+use crate::translator;
+use crate::RC;
 broadcast use strmap::axiom_string_key_obeys_cmp_spec;
 //@ mode contracts-only C04
 //@ include units/C04/eval.rs
 //@ mode full
 
+// executor::Memory: the real alias (lib/executor/mod.rs), extracted
+//@ item lib/executor/mod.rs :: type Memory
+
 //@ include units/C07/state_expr.rs
+//@ include units/C07/exec_memory.rs
+//@ include units/C07/state_exec.rs
+//@ include units/C07/driver.rs
 
 proof fn vf_canary_executor() ensures false {}
 } // mod executor
+
+proof fn vf_canary_root() ensures false {}
 
 } // verus!
 
